@@ -66,7 +66,9 @@ def ref_logprob1(x, loc, raw, ms, vs):
 
 def _dist(event, ms, vs):
   from brax.training import distribution
-  return distribution.NormalTanhDistribution(event, min_std=ms, var_scale=vs)
+  # positional on purpose: (event_size, min_std, var_scale) is the public
+  # signature
+  return distribution.NormalTanhDistribution(event, ms, vs)
 
 
 def _grid1():
@@ -262,35 +264,54 @@ def _check_policy(res, seed):
   from brax.training.agents.ppo import networks as ppo_networks
   from brax.training import types
   for obs_size, act_size, dict_obs in itertools.product((1, 3), (1, 2),
-                                                        (False, True)):
+                                                        (False, True, 'key')):
     kw = dict(policy_hidden_layer_sizes=(4, 4), value_hidden_layer_sizes=(4,))
-    osz = {'state': (obs_size,), 'extra': (2,)} if dict_obs else obs_size
+    okey = 'state'
+    if dict_obs == 'key':
+      # the policy reads an entry other than 'state' ('state' exists too and
+      # has the same width, so a wrong entry is not a shape error)
+      okey = 'policy_in'
+      kw.update(policy_obs_key='policy_in', value_obs_key='state')
+    osz = ({okey: (obs_size,), 'extra': (2,)} if dict_obs != 'key' else
+           {'policy_in': (obs_size,), 'state': (obs_size,), 'extra': (2,)}
+           ) if dict_obs else obs_size
     nets = ppo_networks.make_ppo_networks(
         osz, act_size, preprocess_observations_fn=rs.normalize, **kw)
+    # independent reference network: plain array observations (no key
+    # lookup, no preprocessor), same layer sizes, fed with the hand-normalised
+    # policy entry
     plain = ppo_networks.make_ppo_networks(
-        osz, act_size,
+        obs_size, act_size,
         preprocess_observations_fn=types.identity_observation_preprocessor,
-        **kw)
+        policy_hidden_layer_sizes=(4, 4), value_hidden_layer_sizes=(4,))
     pparams = nets.policy_network.init(jax.random.PRNGKey(seed))
     rng = np.random.RandomState(5 + seed)
     mean = rng.uniform(-3, 3, size=(obs_size,))
     std = rng.uniform(0.2, 4, size=(obs_size,))
     if dict_obs:
-      norm = rs.NestedMeanStd(
-          mean={'state': jnp.asarray(mean), 'extra': jnp.asarray([5.0, -7.0])},
-          std={'state': jnp.asarray(std), 'extra': jnp.asarray([0.5, 3.0])})
+      mm = {okey: jnp.asarray(mean), 'extra': jnp.asarray([5.0, -7.0])}
+      ss = {okey: jnp.asarray(std), 'extra': jnp.asarray([0.5, 3.0])}
+      if dict_obs == 'key':
+        mm['state'] = jnp.asarray(mean * 0 + 1.5)
+        ss['state'] = jnp.asarray(std * 0 + 0.7)
+      norm = rs.NestedMeanStd(mean=mm, std=ss)
     else:
       norm = rs.NestedMeanStd(mean=jnp.asarray(mean), std=jnp.asarray(std))
     make = ppo_networks.make_inference_fn(nets)
     for batch in ((), (5,)):
       o = rng.uniform(-4, 4, size=batch + (obs_size,))
       ex = rng.uniform(-4, 4, size=batch + (2,))
-      obs = ({'state': jnp.asarray(o), 'extra': jnp.asarray(ex)} if dict_obs
+      other = rng.uniform(-4, 4, size=batch + (obs_size,))
+      obs = ({okey: jnp.asarray(o), 'extra': jnp.asarray(ex)} if dict_obs
              else jnp.asarray(o))
       onorm = (o - mean) / std
-      obs_n = ({'state': jnp.asarray(onorm), 'extra': jnp.asarray(ex)}
+      obs_n = ({okey: jnp.asarray(onorm), 'extra': jnp.asarray(ex)}
                if dict_obs else jnp.asarray(onorm))
-      logits = np.asarray(plain.policy_network.apply(None, pparams, obs_n))
+      if dict_obs == 'key':
+        obs['state'] = jnp.asarray(other)
+        obs_n['state'] = jnp.asarray((other - 1.5) / 0.7)
+      logits = np.asarray(plain.policy_network.apply(None, pparams,
+                                                     jnp.asarray(onorm)))
       dist = nets.parametric_action_distribution
       cs = dict(kind='policy', obs_size=obs_size, act_size=act_size,
                 dict_obs=dict_obs, batch=list(batch))
